@@ -46,6 +46,7 @@ inductive T
   | iri (n : Nat)
   | lit (n : Nat)
   | bn (id : Nat)
+  | skol (id : Nat)      -- `BNode(id).skolemize()`: the IRI `…/.well-known/genid/<id>` (round g; only made when skolemize=True)
   deriving DecidableEq, Repr
 
 inductive Policy
